@@ -21,6 +21,9 @@ The atomic steps are the critical sections of the code:
   query `openCursors i`   — the series cursors copy the memtable rows (outside the lock);
   query `readView i`      — the cursors are drained (files are read here);
   query `release i`       — `TSIndexInfo.Unref`;
+* loader `loaderRef`      — `idTimesLoader.loadFromTSSPFiles` under the list lock (shared): a reference on
+                            every listed file before the reading goroutines start; reading is `readView`,
+                            the deferred unref is `release`;
 * compactor `plan fs`     — `acquire` under `inCompLock`;
   `replaceOrd` / `replaceOoo` — `ReplaceFiles` under the list lock: old entries out, new entries in; an
                             old file is unlinked when nobody holds it, else renamed and left to the
@@ -74,6 +77,7 @@ structure View where
   ok : Bool                  -- ghost: taken before `closeBegin`
   base : List Cell           -- ghost: rows acknowledged when the view was taken
   seen : List Cell           -- ghost: rows acknowledged up to the point the view reflects
+  loader : Bool := false     -- not a query: the sequencer's id-time loader holding the files it reads
 
 structure St where
   hist : List Cell           -- ghost: every acknowledged row, newest first
@@ -232,6 +236,21 @@ def St.takeView (σ : St) (client : Nat) : Option St :=
       tables := refT (refT σ.tables σ.active) σ.snapView
       files := refFiles σ.files (σ.ooo ++ σ.ord) }
 
+/-- what the sequencer's id-time loader holds (`idTimesLoader.loadFromTSSPFiles`, after fix
+8af6340): every listed file, referenced under the list lock like a cursor references it. It holds
+no memtable and makes no claim about rows (`ok := false`); it is a holder in the sense of the
+reference-count theorems, which speak about every entry of `views`. Reading (`loadFromTSSPFile`)
+is `readView`, the deferred `UnrefFileReader` / `Unref` is `release`. -/
+def St.loaderView (σ : St) : View :=
+  { client := 0, act := none, snap := none, ooo := σ.ooo, ord := σ.ord, mem := some [], ok := false,
+    base := σ.hist, seen := σ.hist, loader := true }
+
+def St.loaderRef (σ : St) : Option St :=
+  if σ.filesClosed then none
+  else some { σ with
+    views := σ.views ++ [σ.loaderView]
+    files := refFiles σ.files (σ.ooo ++ σ.ord) }
+
 def St.openCursors (σ : St) (i : Nat) : Option St :=
   match σ.views[i]? with
   | none => none
@@ -366,6 +385,7 @@ inductive Act where
   | openCursors (i : Nat)
   | readView (i : Nat)
   | release (i : Nat)
+  | loaderRef
   | plan (fs : List FileId)
   | replaceOrd (old new : List FileId)
   | replaceOoo (old new : List FileId)
@@ -384,6 +404,7 @@ def St.step (σ : St) : Act → Option St
   | .openCursors i => σ.openCursors i
   | .readView i => if i < σ.views.length then some σ else none
   | .release i => σ.release i
+  | .loaderRef => σ.loaderRef
   | .plan fs => σ.plan fs
   | .replaceOrd old new => σ.replaceOrd old new
   | .replaceOoo old new => σ.replaceOoo old new
